@@ -1,5 +1,5 @@
 # EX-A: event-history explorer (ASan+UBSan flavour)
-EXA_SRCS := $(HSRC)/exa_main.cc $(HSRC)/exa_world.cc $(HSRC)/exa_families.cc $(HSRC)/exa_oracles.cc $(HSRC)/exa_peek.cc
+EXA_SRCS := $(HSRC)/exa_main.cc $(HSRC)/exa_world.cc $(HSRC)/exa_families.cc $(HSRC)/exa_oracles.cc $(HSRC)/exa_peek.cc $(HSRC)/exa_stream.cc $(HSRC)/exa_alloc.cc
 EXA_HDRS := $(HSRC)/common.h $(HSRC)/exa_world.h $(HSRC)/exa_dns.h $(HSRC)/exa_peek.h $(HSRC)/exa_families.h
 EXA_OBJS := $(patsubst $(HSRC)/%.cc,$(B)/asan/h/%.o,$(EXA_SRCS))
 
